@@ -152,7 +152,7 @@ def leaf_ext():
     return extmod.ext_fun(2)
 
 def with_args(a, b=2, c="z"):
-    CALLS.append("with_args")
+    CALLS.append("with_args:%s" % (a,))
     return "%s/%s/%s" % (a, b, c)
 
 def with_values(a, b=None, c=None):
@@ -186,6 +186,8 @@ def root():
     out["reexp"] = dds.keep("/c/reexp", leaf_reexp)
     out["ext"] = dds.keep("/c/ext", leaf_ext)
     out["args"] = dds.keep("/c/args", with_args, 1, c="y")
+    out["args2"] = dds.keep("/c/args2", with_args, 2)
+    out["args3"] = dds.keep("/c/args3", with_args, 3, 2, "y")
     out["rt"] = dds.keep("/c/rt", with_runtime, out["scaled"])
     out["ann"] = annotated()
     return out
@@ -201,7 +203,7 @@ import os, importlib
 shipped = importlib.import_module(os.environ.get("CORPUS_PKG", "corp") + ".helpers").shipped
 '''
 
-ALL = ["/c/plain", "/c/scaled", "/c/items", "/c/flag", "/c/pair", "/c/direct", "/c/kw", "/c/href", "/c/batch", "/c/rate", "/c/tags", "/c/unit", "/c/reexp", "/c/ext", "/c/args", "/c/rt", "/c/ann_root", "/c/annotated", "/c/top_args"]
+ALL = ["/c/plain", "/c/scaled", "/c/items", "/c/flag", "/c/pair", "/c/direct", "/c/kw", "/c/href", "/c/batch", "/c/rate", "/c/tags", "/c/unit", "/c/reexp", "/c/ext", "/c/args", "/c/args2", "/c/args3", "/c/rt", "/c/ann_root", "/c/annotated", "/c/top_args"]
 # edits: (name, file, old, new, kept paths whose cone contains the edit [besides the root], value must change for these)
 EDITS = [
     ("callee body (transitive)", "corp/helpers.py", "return 10", "return 11", ["/c/scaled", "/c/rt"]),
@@ -212,7 +214,7 @@ EDITS = [
     ("bool variable", "corp/consts.py", "FLAG = True", "FLAG = False", ["/c/flag", "/c/direct", "/c/rt"]),
     ("tuple variable", "corp/consts.py", "PAIR = (1, 2)", "PAIR = (1, 9)", ["/c/pair", "/c/direct", "/c/rt"]),
     ("None variable", "corp/consts.py", "NOTHING = None", "NOTHING = 5", ["/c/pair", "/c/direct", "/c/rt"]),
-    ("own body", "corp/pipe.py", 'return "%s/%s/%s" % (a, b, c)', 'return "%s|%s|%s" % (a, b, c)', ["/c/args", "/c/rt"]),
+    ("own body", "corp/pipe.py", 'return "%s/%s/%s" % (a, b, c)', 'return "%s|%s|%s" % (a, b, c)', ["/c/args", "/c/args2", "/c/args3", "/c/rt"]),
     ("literal keyword argument", "corp/pipe.py", 'with_args, 1, c="y")', 'with_args, 1, c="w")', ["/c/args", "/c/rt"]),
     ("default of a helper parameter", "corp/helpers.py", 'suffix="s"', 'suffix="t"', ["/c/annotated"]),
     ("callee called only inside a keyword-argument value", "corp/helpers.py", "return 7", "return 9", ["/c/kw", "/c/rt"]),
@@ -365,7 +367,7 @@ def edit(d, rel, old, new):
     shutil.rmtree(os.path.join(os.path.dirname(p), "__pycache__"), ignore_errors=True)
 
 
-FUN_OF = {"/c/unit": "leaf_unit", "/c/batch": "leaf_batch", "/c/rate": "leaf_rate", "/c/tags": "leaf_tags", "/c/reexp": "leaf_reexp", "/c/top_args": "with_values", "/c/kw": "leaf_kw", "/c/href": "leaf_href", "/c/direct": "leaf_direct", "/c/plain": "leaf_plain", "/c/scaled": "leaf_scaled", "/c/items": "leaf_items", "/c/flag": "leaf_flag", "/c/pair": "leaf_pair", "/c/ext": "leaf_ext", "/c/args": "with_args", "/c/rt": "with_runtime", "/c/annotated": "annotated", "/c/ann_root": "root"}
+FUN_OF = {"/c/unit": "leaf_unit", "/c/batch": "leaf_batch", "/c/rate": "leaf_rate", "/c/tags": "leaf_tags", "/c/reexp": "leaf_reexp", "/c/top_args": "with_values", "/c/kw": "leaf_kw", "/c/href": "leaf_href", "/c/direct": "leaf_direct", "/c/plain": "leaf_plain", "/c/scaled": "leaf_scaled", "/c/items": "leaf_items", "/c/flag": "leaf_flag", "/c/pair": "leaf_pair", "/c/ext": "leaf_ext", "/c/args": "with_args:1", "/c/args2": "with_args:2", "/c/args3": "with_args:3", "/c/rt": "with_runtime", "/c/annotated": "annotated", "/c/ann_root": "root"}
 
 
 def main():
